@@ -52,8 +52,20 @@ def unjson(x):
     return x
 
 
+class TooManyViolations(Exception):
+    """Raised by Stats.violation once a shard has produced ABORT_AFTER violations: exploring further
+    only costs time (some broken trees get slower with every call).  Carries the partial statistics."""
+
+    def __init__(self, stats):
+        super().__init__('too many violations in one shard')
+        self.stats = stats
+
+
 class Stats:
     """Per-shard / per-run counters; mergeable; picklable."""
+
+    ABORT_AFTER = 100       # violations NOT covered by a known finding, per shard
+    KNOWN = None            # set by the runner in worker processes: sig -> bool
 
     MAX_SAMPLES = 6
     PER_SIG = 2
@@ -92,10 +104,16 @@ class Stats:
         key = json.dumps(sig, sort_keys=True)
         n = sum(1 for v in self.violations if v['key'] == key)
         distinct = len({v['key'] for v in self.violations})
-        if n >= self.PER_SIG or (n == 0 and distinct >= self.MAX_SIGS):
-            return
-        self.violations.append({'key': key, 'sig': sig, 'case': jsonable(case),
-                                'message': message})
+        if not (n >= self.PER_SIG or (n == 0 and distinct >= self.MAX_SIGS)):
+            self.violations.append({'key': key, 'sig': sig, 'case': jsonable(case),
+                                    'message': message})
+        if Stats.KNOWN is not None and Stats.KNOWN(sig):
+            self.counters['violations_known_raw'] += 1
+        if (self.counters['violations_raw'] - self.counters['violations_known_raw'] >= self.ABORT_AFTER
+                and not self.capped):
+            self.capped = True
+            self.notes.append(f'a shard stopped after {self.ABORT_AFTER} violations; the rest of it was not explored')
+            raise TooManyViolations(self)
 
     def merge(self, o):
         self.evaluations += o.evaluations
